@@ -27,20 +27,23 @@ def run(ctx):
                 destk = 'same-kind'             # corpus: an existing node of the same type and mode but ANOTHER device number
                 if i != 7: kind, rdev = 'chr', (1, 5)
             noclob = rng.random() < 0.25
+            if i in (3, 6, 7):
+                noclob = False; intree = i == 6           # corpus cases keep their shape whatever the generator draws
             driver = ['parfile', 'parblock'][i % 2]
             for sub in ('S', 'D', 'x'):
                 p = os.path.join(root, sub)
                 if os.path.isdir(p) and not os.path.islink(p): shutil.rmtree(p, ignore_errors=True)
                 elif os.path.lexists(p): os.unlink(p)
             tree = [dict(p='S', k='dir', mode=0o755)]
+            nm = 'n' if rng.random() < 0.8 else 'n' * rng.choice([245, 250, 255])        # names up to the 255-byte limit: no room for a suffix
             if intree:
-                tree += [dict(p='S/sub', k='dir', mode=0o755), dict(p='S/sub/n', k=kind, mode=mode, rdev=rdev), dict(p='S/reg', k='file', mode=0o644, data=[('seg', 10, 1)])]
-                src_rel, dst_rel = 'S/sub/n', 'D/sub/n'
+                tree += [dict(p='S/sub', k='dir', mode=0o755), dict(p=f'S/sub/{nm}', k=kind, mode=mode, rdev=rdev), dict(p='S/reg', k='file', mode=0o644, data=[('seg', 10, 1)])]
+                src_rel, dst_rel = f'S/sub/{nm}', f'D/sub/{nm}'
                 argv = ['-r', '-T', 'S', 'D']
             else:
-                tree += [dict(p='S/n', k=kind, mode=mode, rdev=rdev)]
-                src_rel, dst_rel = 'S/n', 'D/n'
-                argv = ['-T', 'S/n', 'D/n']
+                tree += [dict(p=f'S/{nm}', k=kind, mode=mode, rdev=rdev)]
+                src_rel, dst_rel = f'S/{nm}', f'D/{nm}'
+                argv = ['-T', f'S/{nm}', f'D/{nm}']
             if not (intree and destk == 'absent'):
                 tree += [dict(p='D', k='dir', mode=0o755)] + ([dict(p='D/sub', k='dir', mode=0o755)] if intree else [])
             if destk == 'file': tree.append(dict(p=dst_rel, k='file', mode=0o600, data=[('seg', 5, 2)]))
@@ -67,7 +70,7 @@ def run(ctx):
                      sample=dict(argv=argv, kind=kind, mode=oct(mode), rdev=rdev, umask=oct(umask), dest=destk, exit=r.cls) if i in (2, 5, 17) else None)
             src_abs, dst_abs = f'{root}/{src_rel}', f'{root}/{dst_rel}'
             # never opened for reading
-            opened = [e for e in r.trace if e['sys'] in ('openat', 'open') and e.get('path') in (src_abs, src_rel, 'n') and e['ret'] >= 0]
+            opened = [e for e in r.trace if e['sys'] in ('openat', 'open') and e.get('path') in (src_abs, src_rel, nm) and e['ret'] >= 0]
             opened += [e for e in r.trace if e['sys'] in ('openat', 'open') and e.get('fdpath') == src_abs]
             if opened:
                 ctx.violation(f'case-{i}-opened.json', dict(argv=argv, events=opened[:5]), f'C14: the source {kind} node was opened')
@@ -132,6 +135,27 @@ def run(ctx):
                     ctx.cov['disagreements_checked'] += 1
                     ctx.violation(f'case-{i}-corr.json', dict(argv=argv, kind=kind, dest=destk, model=m, exit=r.cls, stderr=r.stderr[-300:], correspondence='Operation::Special + copy_node vs Xcp.specialProgram'),
                                   f'model/implementation disagree on a {kind} onto {destk}: model {m!r}, exit {r.cls}', no_input=True)
+        # ---- the node cannot be created (mknod refused: no CAP_MKNOD, a file system without device nodes): the run FAILS — a
+        # missing node with exit 0 is not a copy
+        for i2 in range(8 if ctx.quick else 40):
+            kind = ['chr', 'fifo', 'sock', 'chr'][i2 % 4]; driver = ['parfile', 'parblock'][(i2 // 4) % 2]
+            for sub in ('S', 'D', 'x'):
+                p = os.path.join(root, sub)
+                if os.path.isdir(p) and not os.path.islink(p): shutil.rmtree(p, ignore_errors=True)
+                elif os.path.lexists(p): os.unlink(p)
+            tree = [dict(p='S', k='dir', mode=0o755), dict(p='S/n', k=kind, mode=0o644, rdev=(1, 3) if kind == 'chr' else (0, 0)), dict(p='S/reg', k='file', mode=0o644, data=[('seg', 10, 1)])]
+            prior = i2 % 3 == 0
+            if prior:
+                tree += [dict(p='D', k='dir', mode=0o755), dict(p='D/n', k='file', mode=0o600, data=[('seg', 5, 2)])]
+            scen.materialise(root, tree)
+            en = rng.choice(['EPERM', 'EPERM', 'EACCES', 'ENOSPC'])
+            plan = [f'fail mknodat * 1 {scen.ERRNO[en]}']
+            argv = ['--driver', driver, '-r', '-T', 'S', 'D']
+            r = scen.run_xcp(root, argv, umask=0o022, timeout=30, plan=plan, trace=True)
+            fired = any(e.get('inj') for e in r.trace)
+            ctx.count(f'mknod_refused.{"fired" if fired else "not_fired"}.{r.cls}'); ctx.case(('mknod-refused', kind, driver, en, prior), fired)
+            if fired and r.cls == '0':
+                ctx.violation(f'mknod-refused-{i2}.json', dict(argv=argv, plan=plan, kind=kind, prior_entry=prior), f'C14: mknod was refused ({en}) for a {kind} but xcp exited 0: the node is missing at the destination ({driver})')
         # ---- nodes created while OTHER threads finish regular files under --no-perms: whatever those threads do to find out the
         # default mode, a node's mode is still the source's bits limited by the umask
         for driver in ('parfile', 'parblock'):
